@@ -236,6 +236,28 @@ def work_unevaluable(job):
             if 'S!C1' in rep.get('mismatch', {}):
                 acc.violation(dict(case, verdict='non-descendant-reported', report=jsonable(rep)),
                               f'C1 reported as mismatch although it is consistent and independent: {str(rep)[:200]}')
+        # an altered formula cell that the outputs reach only THROUGH the cell that cannot be evaluated
+        g = '=NOSUCHFN(B1)' if kind == 'unknown' else '=VBOOM(1,B1)'
+        for depth, spec2, stored2 in (
+                (1, family.S({'A1': 1, 'B1': '=A1*2', 'C1': g, 'D1': '=C1+1'}), {'S!B1': 3, 'S!C1': 5, 'S!D1': 6}),
+                (2, family.S({'A1': 1, 'A2': '=A1+1', 'B1': '=A2*2', 'C1': g, 'D1': '=C1+1'}),
+                 {'S!A2': 7, 'S!B1': 4, 'S!C1': 5, 'S!D1': 6})):
+            altered = 'S!B1' if depth == 1 else 'S!A2'
+            path2 = os.path.join(tmp, f'v{depth}.xlsx')
+            W.write_xlsx(spec2, path2, stored2)
+            for outs in (['S!D1'], ['S!C1'], None):
+                plugins.reset({1: 'always'})
+                acc.add('evaluations')
+                acc.add('states')
+                acc.add('transitions')
+                acc.add('distinct_nontrivial')
+                rep = validate(path2, outs, None, plugins_='mc.plugins')
+                case = dict(kind='unevaluable', fault=kind, outputs=outs, verdict=None, pert=kind, tol=None, behind=depth,
+                            outputs_kind='all' if outs is None else 1)
+                if altered not in rep.get('mismatch', {}):
+                    acc.violation(dict(case, verdict='altered-cell-behind-unevaluable-not-named', report=jsonable(rep)),
+                                  f'{altered} holds an altered stored result and is reachable from outputs={outs} through C1 {g} '
+                                  f'(which cannot be evaluated) but is not named as a mismatch: report={str(rep)[:240]}')
     finally:
         shutil.rmtree(tmp, ignore_errors=True)
     return acc.result()
